@@ -98,6 +98,8 @@ func GenSyntax(r *rand.Rand, o SynGenOpts) *Grammar {
 		g = s.manyTerms()
 	case "splitrr":
 		g = s.splitRR()
+	case "longkeyed":
+		g = s.longKeyed()
 	case "wide":
 		g = s.wide()
 	case "cyclic":
@@ -717,6 +719,9 @@ func (s *synGen) long() *Grammar {
 	x := &NTDef{Head: "X", Alts: []SAlt{alt(s.terms[1]), alt(s.terms[2], nt("X"))}}
 	g := &Grammar{NTs: []*NTDef{top, x}}
 	if s.r.Intn(2) == 0 {
+		return s.longKeyed()
+	}
+	if s.r.Intn(2) == 0 {
 		// many productions as well: production numbers and dot positions both reach two digits
 		// (an item key that runs them together confuses (1,10) with (11,0))
 		top.Alts[0].Body = append(top.Alts[0].Body, nt("Tail"))
@@ -737,6 +742,41 @@ func (s *synGen) long() *Grammar {
 		}
 	}
 	return g
+}
+
+// longKeyed: production p has a nonterminal at position d (10 or 20) whose first production
+// is number q, where the decimal digits of p followed by those of d are the digits of q
+// followed by 0: an item key that writes the two numbers without a separator confuses the item
+// (p, d) with the closure item (q, 0) that the same state must hold.
+func (s *synGen) longKeyed() *Grammar {
+	s.pickTerminals(6)
+	t := s.terms
+	type pick struct{ p, d, q int }
+	c := []pick{{1, 10, 11}, {2, 10, 21}, {3, 10, 31}, {1, 20, 12}}[s.r.Intn(4)]
+	top := &NTDef{Head: "S"}
+	for i := 1; i < c.p; i++ {
+		top.Alts = append(top.Alts, alt(t[i-1], t[i-1])) // short alternatives before the long one
+	}
+	body := []Sym{t[2]}
+	for len(body) < c.d {
+		body = append(body, t[s.r.Intn(3)])
+	}
+	body = append(body, nt("Tail"))
+	if s.r.Intn(2) == 0 {
+		body = append(body, t[4])
+	}
+	top.Alts = append(top.Alts, alt(body...))
+	top.Alts = append(top.Alts, alt(t[3], nt("Kind")))
+	kind := &NTDef{Head: "Kind"}
+	for i, n := 0, c.q-1-len(top.Alts); i < n; i++ {
+		var b []Sym
+		for bit := 0; bit < 5; bit++ {
+			b = append(b, t[(i>>bit)&1])
+		}
+		kind.Alts = append(kind.Alts, alt(b...))
+	}
+	tail := &NTDef{Head: "Tail", Alts: []SAlt{alt(t[0], t[1]), alt(t[5])}}
+	return &Grammar{NTs: []*NTDef{top, kind, tail}}
 }
 
 func (s *synGen) random() *Grammar {
